@@ -97,6 +97,11 @@ class Evaluator:
         if k == 'var':
             if n['decl'] in self.vars:
                 return self.vars[n['decl']]
+            if isinstance(state, frozenset):
+                # store of re-assigned boolean locals carried by sink_reachability(..., track=evaluator)
+                for d, v in state:
+                    if d == ('var', n['decl']):
+                        return v
             if n.get('vk') == 'local' and not n.get('outer'):
                 d = fn.single_def(n['decl'])
                 if d is not None:
@@ -109,7 +114,7 @@ class Evaluator:
         return None
 
 
-def explore(fn, init, transfer=None, evalcond=None, refine=None, max_states=200000, edge_filter=None):
+def explore(fn, init, transfer=None, evalcond=None, refine=None, max_states=200000, edge_filter=None, record_visits=None):
     """Exhaustive exploration.
 
     transfer(fn, nid, state) -> new state (or the same)            applied to each block element
@@ -186,6 +191,22 @@ def explore(fn, init, transfer=None, evalcond=None, refine=None, max_states=2000
                 if len(parent) > max_states:
                     raise AnalysisBroken('state space bound exceeded in %s' % fn.display())
                 q.append(nxt)
+    if record_visits is not None:
+        # block -> witness path of the first visit (any state)
+        for node in parent:
+            if node[0] in record_visits:
+                continue
+            path = []
+            cur = node
+            while cur is not None:
+                pp = parent.get(cur)
+                if pp is None:
+                    path.append((cur[0], None))
+                    break
+                path.append((cur[0], pp[1]))
+                cur = pp[0]
+            path.reverse()
+            record_visits[node[0]] = path
     witnesses = {}
     for st, node in exits.items():
         path = []
@@ -288,8 +309,49 @@ def reach_with_paths(fn, evalcond):
     return out
 
 
-def sink_reachability(fn, evalcond, sinks):
-    """sinks: iterable of node ids -> {nid: witness path or None}"""
+def tracked_bools(fn):
+    """re-assigned boolean locals (single-assignment ones are inlined by the evaluator anyway)"""
+    out = set()
+    for decl, d in fn.defs().items():
+        if d.get('assigned') and (d.get('tc') or '').startswith('bool') or (d.get('assigned') and d.get('t') in ('bool', 'const bool')):
+            out.add(decl)
+    return out
+
+
+def sink_reachability(fn, evalcond, sinks, track=None):
+    """sinks: iterable of node ids -> {nid: witness path or None}.
+    track: an Evaluator; when given, boolean locals that are assigned more than once are followed path-sensitively (their value is part of the explored state),
+    so `bool ok = true; if (x) ok = f(); if (ok && g()) sink;` is decided like the equivalent single condition."""
+    sinks = list(sinks)
+    tb = tracked_bools(fn) if track is not None else set()
+    if tb:
+        hit = {}
+
+        def transfer(f, nid, st):
+            n = f.nodes[nid]
+            upd = None
+            if n['k'] == 'decl':
+                for d in n['decls']:
+                    if d['var'] in tb and d.get('init') is not None:
+                        upd = (d['var'], track.ev(d['init'], st))
+            elif n['k'] == 'assign' and n['op'] == '=':
+                l = f.nodes[f.skip(n['l'])]
+                if l['k'] == 'var' and l.get('decl') in tb:
+                    upd = (l['decl'], track.ev(n['r'], st))
+            if upd is not None:
+                st = frozenset(x for x in st if x[0] != ('var', upd[0]))
+                if isinstance(upd[1], bool):
+                    st = st | {(('var', upd[0]), upd[1])}
+                return st
+            return None
+        parent_of = {}
+        # explore() keeps witnesses for exit states only; sinks are looked up through the visited (block, state) set
+        exits, info = explore(fn, frozenset(), transfer, evalcond, record_visits=parent_of)
+        out = {}
+        for nid in sinks:
+            pos = fn.pos(nid)
+            out[nid] = parent_of.get(pos[0]) if pos else None
+        return out
     r = reach_with_paths(fn, evalcond)
     out = {}
     for nid in sinks:
